@@ -629,9 +629,112 @@ func (g *lineGen) rawFile(lines []string, junk bool) (string, bool) {
 var fxEntries = []string{"msg", "err", "iferr", "ifnil", "write", "cmdnone", "cmdbad"}
 var fxWriters = []string{"def", "out", "fail"}
 
+// genAx: a history of atexit.Register / Unregister calls followed by Exit(status).
+func genAx(r *hx.Rng) string {
+	var sb strings.Builder
+	fmt.Fprintf(&sb, "ax %d", hx.Pick(r, []int{0, 1, 1, 2, 3, 7, 42, 125}))
+	nops := r.Range(0, 9)
+	if r.Chance(1, 12) {
+		nops = hx.Pick(r, []int{16, 17, 33, 70})
+	}
+	regs := 0
+	for i := 0; i < nops; i++ {
+		if regs == 0 || r.Chance(2, 3) {
+			act := hx.Pick(r, []string{"p", "p", "p", "s", "e", "n", "t", "z", "x", "g", "u"})
+			if act == "u" {
+				// unregisters, while the exit is running, a function registered earlier, itself, a later one or none
+				act = fmt.Sprintf("u%d", r.Intn(regs+3))
+			}
+			sb.WriteString(" r:" + act)
+			regs++
+		} else {
+			// the first, the last, any, the same again, one that does not exist
+			k := hx.Pick(r, []int{0, regs - 1, r.Intn(regs), r.Intn(regs), regs, regs + 5})
+			fmt.Fprintf(&sb, " u%d", k)
+		}
+	}
+	return sb.String()
+}
+
+// genLongLine: a response file one of whose lines is around bufio.MaxScanTokenSize (64 KiB) long. The bytes of the file
+// are given run-length encoded. The long line is an assignment to a string option, a value, or a positional.
+func genLongLine(r *hx.Rng) string {
+	hexs := func(s string) string { return hx.Hex([]byte(s)) }
+	total := hx.Pick(r, []int{65533, 65534, 65535, 65535, 65536, 65536, 65537, 65538, 70000, 131071, 131072, 200000})
+	term := hx.Pick(r, []string{"\n", "\r\n", ""})
+	var pre, post []string // short lines in front of and behind the long one
+	if r.Bool() {
+		pre = append(pre, hx.Pick(r, []string{"-a", "--list=x", "-lq", "--longv=short", "-a\r"}))
+	}
+	prefix := hx.Pick(r, []string{"--longv=", "-n", "-n=", "-an", "", "--list=", "VALUE"})
+	if prefix == "VALUE" { // the long line is the value of the line in front of it
+		pre = append(pre, hx.Pick(r, []string{"--longv", "-n", "-l"}))
+		prefix = ""
+	}
+	if term != "" || r.Bool() {
+		// lines behind the long one: they are lost if the error of the scanner is ignored
+		if prefix == "" && len(pre) > 0 && !strings.HasPrefix(pre[len(pre)-1], "--longv=") && r.Bool() {
+			post = append(post, "pos2", "-a")
+		} else {
+			post = append(post, hx.Pick(r, []string{"--list=after", "-a", "--longv=after", "-lz"}))
+		}
+		if term == "" {
+			term = "\n"
+		}
+	}
+	fill := hx.Pick(r, []string{"x", "x", "é", "=", "-"})
+	n := total - len(prefix)
+	if term == "\r\n" {
+		n-- // the CR is part of what fills the buffer
+	}
+	var segs []string
+	for _, l := range pre {
+		segs = append(segs, hexs(l+"\n"))
+	}
+	if prefix != "" {
+		segs = append(segs, hexs(prefix))
+	}
+	segs = append(segs, fmt.Sprintf("%d*%s", n/len(fill), hexs(fill)))
+	if n%len(fill) != 0 {
+		segs = append(segs, hexs("y"))
+	}
+	if term != "" {
+		segs = append(segs, hexs(term))
+	}
+	for i, l := range post {
+		if i == len(post)-1 && r.Bool() {
+			segs = append(segs, hexs(l))
+		} else {
+			segs = append(segs, hexs(l+"\n"))
+		}
+	}
+	var args []string
+	if r.Bool() {
+		args = append(args, hx.Pick(r, []string{"-a", "--list=first", "-lq", "-al=w"}))
+	}
+	args = append(args, "@fL")
+	if r.Bool() {
+		args = append(args, hx.Pick(r, []string{"-a", "--list=last", "--", "p", "-lw"}))
+	}
+	var sb strings.Builder
+	sb.WriteString("pc 0 O 110:" + hexs("longv") + ":string:" + hexs("def") + hx.Pick(r, []string{":g", ":v", ":w"}))
+	sb.WriteString(" 97:~:bool:" + hexs("false") + " 108:" + hexs("list") + ":[]string:~")
+	sb.WriteString(" F " + hexs("fL") + "=" + strings.Join(segs, "+") + " A")
+	for _, a := range args {
+		sb.WriteString(" " + hexs(a))
+	}
+	return sb.String()
+}
+
 func genLine(r *hx.Rng) string {
 	if r.Chance(1, 400) {
 		return "fx " + hx.Pick(r, fxEntries) + " " + hx.Pick(r, fxWriters)
+	}
+	if r.Chance(1, 120) {
+		return genAx(r)
+	}
+	if r.Chance(1, 700) {
+		return genLongLine(r)
 	}
 	g := &lineGen{r: r, weird: r.Chance(1, 12), mal: r.Chance(1, 7), big: r.Chance(1, 120), long: r.Chance(1, 40), maxFiles: 6}
 	incl := r.Chance(1, 4)
